@@ -161,7 +161,7 @@ def main(run):
                 "includable files with private/exported/negative symbols, .extern all, 1-3 files) assembled in-process, listing compared line by "
                 "line; (b) all 55 LstPath selector scenarios (incl. two directive outputs: the first names the listing) x programs through the real CLI with --lst; non-trivial = accepted program listing at "
                 "least two symbols, or a CLI scenario")
-    recs, inc = explore(run, "ListAlphabet", "ListIncFiles", 4 if thorough else 3, 1, [512], label="AsmCore listing, 1 file (exhaustive)")
+    recs, inc = explore(run, "ListAlphabet", "ListIncFiles", 3, 1, [512], label="AsmCore listing, 1 file x 3 stmts (exhaustive)")
     recs2, inc2 = explore(run, "ListAlphabet", "ListIncFiles", 4, 3, [512, 1026], simulate=(8000 if thorough else 1200), depth=14, seed=run.seed + 19,
                           label="AsmCore listing simulation (<= 4 stmts x 3 files)")
     seen, tasks = set(), []
